@@ -122,6 +122,47 @@ pub fn long_docs(format: &str) -> Vec<Doc> {
     vec![Doc::new(format!("^{format}:long"), d), Doc::new(format!("^{format}:long-corrupted"), bad), Doc::new(format!("^{format}:long-symbol-name"), long_name), Doc::new(format!("^{format}:long-comment-line"), long_comment)]
 }
 
+/// Symbol table lines against every combination of empty / non-empty sections: for each of the 128
+/// combinations of the seven section counts in {0, 1} a minimal consistent circuit, followed by one
+/// symbol line of every kind with index 0 and 1 (a symbol for an empty section, or with an index
+/// equal to the count, must be rejected - without tripping over `count - 1`).
+pub fn symbol_table_docs(format: &str) -> Vec<Doc> {
+    let mut out = Vec::new();
+    for bits in 0..128u32 {
+        let c = |k: u32| (bits >> k) & 1;
+        let (i, l, o, b, cc, j, f) = (c(0), c(1), c(2), c(3), c(4), c(5), c(6));
+        let m = i + l;
+        let mut d = format!("{format} {m} {i} {l} {o} 0 {b} {cc} {j} {f}\n").into_bytes();
+        if i == 1 && format == "aag" {
+            d.extend_from_slice(b"2\n");
+        }
+        if l == 1 {
+            if format == "aag" {
+                d.extend_from_slice(format!("{} 0\n", 2 * (i + 1)).as_bytes());
+            } else {
+                d.extend_from_slice(b"0\n");
+            }
+        }
+        for _ in 0..(o + b + cc) {
+            d.extend_from_slice(b"0\n");
+        }
+        if j == 1 {
+            d.extend_from_slice(b"1\n0\n");
+        }
+        if f == 1 {
+            d.extend_from_slice(b"0\n");
+        }
+        for kind in ["i", "l", "o", "b", "c", "j", "f"] {
+            for idx in 0..2 {
+                let mut t = d.clone();
+                t.extend_from_slice(format!("{kind}{idx} name\n").as_bytes());
+                out.push(Doc::new(format!("~{format}|symbols-{bits}-{kind}{idx}"), t));
+            }
+        }
+    }
+    out
+}
+
 pub struct Inputs {
     pub corpus: Vec<Doc>,
     pub neighbours: Vec<Doc>,
@@ -178,6 +219,7 @@ pub fn inputs_seq(format: &str, tier: Tier, seq_len: usize) -> Inputs {
         }
     }
     nb.extend(long_docs(format));
+    nb.extend(symbol_table_docs(format));
     let sequences = dedup_docs(token_sequences(&tokens(format), seq_len));
     // all short strings over a 10-symbol alphabet (arbitrary inputs)
     let mut sequences = sequences;
